@@ -93,6 +93,17 @@ def topo(defs):
     return out
 
 
+def const_literal_expr(n):
+    """initialiser made of literals, casts, parentheses and builtin operators only"""
+    k = n.get("kind")
+    if k in ("IntegerLiteral", "FloatingLiteral", "CXXBoolLiteralExpr", "CharacterLiteral"):
+        return True
+    if k in ("UnaryOperator", "BinaryOperator", "ParenExpr", "ImplicitCastExpr", "ConstantExpr", "CStyleCastExpr",
+             "CXXStaticCastExpr", "CXXFunctionalCastExpr"):
+        return all(const_literal_expr(c) for c in n.get("inner", []))
+    return False
+
+
 def translate(cfg, outdir):
     os.makedirs(outdir, exist_ok=True)
     tm = TypeMap(typedefs=cfg.get("typedefs"), class_alias=cfg.get("class_alias"), enums=cfg.get("enums"))
@@ -143,6 +154,7 @@ def translate(cfg, outdir):
                             ex = [x for x in f.get("inner", []) if x.get("kind") != "FullComment"]
                             if ex:
                                 em.field_inits[(cls, f["name"])] = ex[-1]
+        em.cur_tu = u["tu"]
         sig, text, unit = em.emit_function(node, cname, cls if node["kind"] != "FunctionDecl" else None, static)
         em.unit_names.add(cname)
         rng = node.get("range", {})
@@ -154,6 +166,14 @@ def translate(cfg, outdir):
                      "ast_sha1": hashlib.sha1(json.dumps(node, sort_keys=True).encode()).hexdigest(),
                      "begin_offset": b.get("offset", b.get("expansionLoc", {}).get("offset")),
                      "end_offset": e.get("offset", e.get("expansionLoc", {}).get("offset")), "line": line0})
+    # compile-time constants: value = the initialiser found in the TU (literals and arithmetic on literals only)
+    const_init = {}
+    for cn, (name, tu) in sorted(em.const_globals.items()):
+        for o in astq.query(tu, name):
+            if o.get("kind") == "VarDecl" and o.get("name") == name and o.get("inner"):
+                init = [x for x in o["inner"] if x.get("kind") != "FullComment"][-1]
+                if const_literal_expr(init):
+                    const_init[cn] = em.E(init)
     # extra fields requested by the spec (ghost fields or fields used only by predicates)
     for tag, fields in cfg.get("extra_fields", {}).items():
         for f, ct in fields.items():
@@ -247,7 +267,7 @@ def translate(cfg, outdir):
         f.write("\n".join(h) + "\n")
     c = []
     for cn, ct in sorted(em.globals.items()):
-        c.append("%s %s;" % (ct, cn))
+        c.append("%s %s%s;" % (ct, cn, " = " + const_init[cn] if cn in const_init else ""))
     c.append("int vf_exc;")
     for lt in em.lifted:
         c.append(lt)
